@@ -1,5 +1,6 @@
 """C04 -- see DESIGN.md section 4"""
 from vf import family
+from vf.family import T
 from vf.props import flow_common as fc
 
 ID = 'C04'
@@ -17,10 +18,25 @@ ASSUMPTIONS = ['event annotations of vf/docs.py (written from the property texts
                'scanner re-basing + stderr stub as for C01']
 
 
+EXTRA = {
+    # name: (spec, options)
+    'seqs_equation': (['cat', T('A'), '\n', ['G', '\\begin{equation}\na = b,\n\\end{equation}', '[U-Z]-[U-Z]-[U-Z],'],
+                       '\n', T('next'), ' ', ['G', '$$ c; $$', '[U-Z]-[U-Z]-[U-Z];'], ' ', T('B')], {'seqs': True}),
+    'seqs_align': (['cat', T('A'), '\n', ['G', '\\begin{align*}\nx &= y \\\\\n &= z.\n\\end{align*}',
+                                          '[U-Z]-[U-Z]-[U-Z]\\.'], T('B')], {'seqs': True, 'pack': 'amsmath'}),
+    'seqs_bracket': (['cat', T('A'), ' ', ['G', '\\[ u: \\]', '[U-Z]-[U-Z]-[U-Z]:'], T('B')], {'seqs': True}),
+    'display_punct': (['cat', T('A'), '\n', ['G', '\\[ u = v. \\]', 'V-V-V\\.'], '\n', T('B')], {}),
+    'proof_de': (['cat', T('A'), '\n', ['proof', ['cat', '\n', T('B'), '\n'], None, 'Beweis'], '\n', T('C')],
+                 {'pack': 'amsthm', 'lang': 'de'}),
+}
+
+
 def items(tier, seed):
     tw = {'h': 'fam', 'name': 'twin', 'spec': family.doc(family.ATOMS[0]), 'tag': 'C04',
           'twin': True}
-    return fc.items(tier, seed, 'C04', [tw])
+    ex = [{'h': 'fam', 'name': 'extra:' + n, 'spec': sp, 'tag': 'C04', 'opts': o}
+          for n, (sp, o) in EXTRA.items()]
+    return fc.items(tier, seed, 'C04', [tw] + ex)
 
 
 run_item = fc.run_item
